@@ -386,8 +386,24 @@ class Layout:
         if self.tabs != "equiv":
             return s
         c = col_after(0, s)
-        k = self.r.randint(0, c // TABSTOP)
-        return "\t" * k + " " * (c - k * TABSTOP)
+        # walk from tab stop to tab stop; each stop is reached by a tab, by j blanks and a tab
+        # (j = 1 .. 7, e.g. seven blanks + TAB), or by blanks alone
+        out, col = "", 0
+        while col < c:
+            ns = (col // TABSTOP + 1) * TABSTOP
+            if ns <= c:
+                k = self.r.random()
+                if k < 0.4:
+                    out += "\t"
+                elif k < 0.75 and ns - col > 1:
+                    out += " " * self.r.randint(1, ns - col - 1) + "\t"
+                else:
+                    out += " " * (ns - col)
+                col = ns
+            else:
+                out += " " * (c - col)
+                col = c
+        return out
 
     def gap(self, a, b):
         r = self.r
